@@ -16,7 +16,7 @@
    residence times (any N, not only u128) and clock values >= 2000-01-01 are arbitrary. *)
 From Coq Require Import Sorting.Sorted.
 From BP7 Require Import Base.Prelude Gen.Consts Model.Types Model.Encode Model.Decode Model.Wf Model.WfExt Model.Validate Model.Ops
-  Model.OpSeq Model.Api Spec.Rules Proofs.CodecUnknownCrc Proofs.InvariantProofs Proofs.ApiProofs.
+  Model.OpSeq Model.Api Spec.Rules Proofs.CodecUnknownCrc Proofs.InvariantProofs Proofs.ApiProofs Proofs.TableProofs.
 
 Theorem C11_invariant : forall m b0 ops, start_ok b0 -> Forall (op_admissible b0) ops ->
   exists b, fold_res (step m) ops b0 = Ok b
@@ -224,6 +224,11 @@ Example C11_ex_primary_builder :
   /\ primary_builder_build (mkpb (Some 4) None None (Some (Ipn 2 1 1)) None None None None None) = None.
 Proof. vm_compute. split; reflexivity. Qed.
 
+(* the exhaustive tie for set_crc: for EVERY u8 type code the library's set_crc_type, read back through crc_type / has_crc /
+   bytes (table written from the compiled crate on every run), is the model's crc_of_type *)
+Theorem C11_tie_crc_code : forall k, k < 256 -> code_crc k = crc_answer k.
+Proof. exact tie_crc_code. Qed.
+
 Check C11_invariant : forall m b0 ops, start_ok b0 -> Forall (op_admissible b0) ops ->
   exists b, fold_res (step m) ops b0 = Ok b /\ Inv b /\ payload b = last_payload_set b0 ops
             /\ (let '(bs, b') := to_cbor b in from_cbor bs = Ok b').
@@ -248,3 +253,4 @@ Print Assumptions C11_constructors_valid.
 Print Assumptions C11_primary_builder.
 Print Assumptions C11_std_bundle_api.
 Print Assumptions C11_block_ops.
+Print Assumptions C11_tie_crc_code.
